@@ -24,3 +24,8 @@ open MdVerif.RefText
 #print axioms C15_aOpenF_plain
 #print axioms C15_specUsesF_xhtml
 #print axioms C15_mix_line_fmt
+#print axioms C15_document
+#print axioms C15_document_spec
+#print axioms C15_document_ok
+#print axioms C15_document_pieces
+#print axioms C15_linePiece
